@@ -6,6 +6,11 @@ import NeumannModel.Common.FramedLog
     tensor_store/src/slab_router.rs  classify_key, put/get/delete/exists/scan,
                                      put_durable, delete_durable, checkpoint, recover, apply_wal_entry
     tensor_store/src/entity_index.rs get / get_or_create / remove (ids = vocabulary positions, tombstones)
+  Follows /repo at 197dc525 (checkpoint fsyncs the log first), e374d74b (an `emb:` key stored
+  without a usable vector clears the slab entry of its id, live and on replay) and the fix
+  "replay ignores EmbeddingSet records" (the entity id in the record is the writing session's).
+  The behaviours before those commits are kept as `putOld` / `applyEntryOld1` / `applyEntryOld2` /
+  `recoverWith` / `Sys.ckptStepsOld` for the `…_witness` theorems only.
   Import-free apart from the shared framed-log model; executable.  bitcode is opaque: a WAL
   payload is a byte string and `dec : Bytes → Option Entry` (supplied by the harness, which
   runs the real `bitcode::deserialize`) says what it means.
@@ -102,8 +107,26 @@ def Store.empty : Store := ⟨[], [], [], []⟩
 def slabSet (s : List (Nat × Bytes)) (id : Nat) (vec : Bytes) : List (Nat × Bytes) :=
   if dimOk vec then aset s id vec else s        -- `embeddings.set` fails on a dimension mismatch
 
-/-- `SlabRouter::put` -/
+/-- `if self.embeddings.set(id, vec).is_err() { self.embeddings.delete(id) }` (repo e374d74b) -/
+def slabPut (s : List (Nat × Bytes)) (id : Nat) (vec : Bytes) : List (Nat × Bytes) :=
+  if dimOk vec then aset s id vec else aerase s id
+
+/-- `SlabRouter::put`.  An `emb:` key always leaves the slab entry of its id either equal to the
+    value's usable vector or absent (repo e374d74b). -/
 def put (s : Store) (k : Bytes) (v : Val) : Store :=
+  match classify k with
+  | .embedding =>
+      let ic := idxGetOrCreate s.vocab k
+      let slab := match v.emb with
+        | some vec => slabPut s.slab ic.1 vec
+        | none => aerase s.slab ic.1
+      { s with vocab := ic.2, slab := slab, md := aset s.md k v }
+  | .cache => { s with cache := aset s.cache k v }
+  | _ => { s with md := aset s.md k v }
+
+/-- `SlabRouter::put` BEFORE repo e374d74b (a value without a usable vector left the slab entry
+    of the id untouched).  Only used by `…_witness` theorems. -/
+def putOld (s : Store) (k : Bytes) (v : Val) : Store :=
   match classify k with
   | .embedding =>
       let ic := idxGetOrCreate s.vocab k
@@ -175,14 +198,34 @@ def applyEntry (s : Store) : Entry → Store
       match v.emb with
       | some vec =>
           let ic := idxGetOrCreate s.vocab k
-          { s with md := aset s.md k v, vocab := ic.2, slab := slabSet s.slab ic.1 vec }
-      | none => { s with md := aset s.md k v }
+          { s with md := aset s.md k v, vocab := ic.2, slab := slabPut s.slab ic.1 vec }
+      | none =>
+          if classify k = .embedding then      -- same as `put`: allocate the id, drop a stale slab entry
+            let ic := idxGetOrCreate s.vocab k
+            { s with md := aset s.md k v, vocab := ic.2, slab := aerase s.slab ic.1 }
+          else { s with md := aset s.md k v }
   | .metaDel k => { s with md := aerase s.md k }
-  | .embSet id vec => { s with slab := slabSet s.slab id vec }
+  | .embSet _ _ => s      -- the logged id is the writing session's; the `MetadataSet` that follows carries the vector
   | .embDel id => { s with slab := aerase s.slab id }
   | .entCreate k _ => { s with vocab := (idxGetOrCreate s.vocab k).2 }
   | .entRemove k => { s with vocab := idxRemove s.vocab k }
   | .txBegin _ | .txCommit _ | .txAbort _ | .checkpoint _ => s
+
+/-- `apply_wal_entry` BEFORE the fix "replay ignores EmbeddingSet records": the slab entry of the
+    LOGGED entity id is overwritten.  Only used by `…_witness` theorems. -/
+def applyEntryOld2 (s : Store) : Entry → Store
+  | .embSet id vec => { s with slab := slabSet s.slab id vec }
+  | e => applyEntry s e
+
+/-- `apply_wal_entry` BEFORE repo e374d74b (and before the fix above).  Only used by `…_witness` theorems. -/
+def applyEntryOld1 (s : Store) : Entry → Store
+  | .metaSet k v =>
+      match v.emb with
+      | some vec =>
+          let ic := idxGetOrCreate s.vocab k
+          { s with md := aset s.md k v, vocab := ic.2, slab := slabSet s.slab ic.1 vec }
+      | none => { s with md := aset s.md k v }
+  | e => applyEntryOld2 s e
 
 /-! ### `WalRecovery::from_entries` -/
 
@@ -241,6 +284,13 @@ def recover (crc : Bytes → Nat) (dec : Bytes → Option Entry) (snap : Option 
   if pe.2 = .badCrc then .error .checksum
   else .ok (replay (snap.getD Store.empty) (allOperations (fromEntries pe.1)))
 
+/-- `recover` with a given `apply_wal_entry` (for the pre-fix variants) -/
+def recoverWith (app : Store → Entry → Store) (crc : Bytes → Nat) (dec : Bytes → Option Entry)
+    (snap : Option Store) (file : Bytes) : Except RecErr Store :=
+  let pe := entriesOf crc dec file
+  if pe.2 = .badCrc then .error .checksum
+  else .ok ((allOperations (fromEntries pe.1)).foldl app (snap.getD Store.empty))
+
 /-! ### the writer: sync modes with an explicit durable length -/
 
 inductive SyncMode where
@@ -273,8 +323,8 @@ def Wal.append (mode : SyncMode) (w : Wal) (recBytes : Bytes) : Wal :=
 /-- `fsync` / `wal_sync` -/
 def Wal.sync (w : Wal) : Wal := { w with syncedLen := w.file.length, pending := 0 }
 
-/-- `truncate` -/
-def Wal.truncate (_ : Wal) : Wal := { file := [], syncedLen := 0, pending := 0 }
+/-- `truncate` (`File::create` on the path; `pending_sync_count` is not reset) -/
+def Wal.truncate (w : Wal) : Wal := { file := [], syncedLen := 0, pending := w.pending }
 
 /-- `rotate`: current file becomes `<name>.1`, a fresh empty file is started.
     Recovery reads only the current file (`replay_with_validation` opens `self.path`). -/
@@ -327,13 +377,33 @@ def Sys.op (crc : Bytes → Nat) (enc : Entry → Bytes) (sy : Sys) (o : Op) : S
 
 def Sys.sync (sy : Sys) : Sys := { sy with wal := sy.wal.sync }
 
-/-- `checkpoint`, step 1: snapshot written (and renamed into place) -/
+/-- `checkpoint`, step 1 (repo 197dc525): the log is fsynced, whatever the sync mode -/
+def Sys.ckptSync (sy : Sys) : Sys := sy.sync
+/-- step 2: snapshot written (and renamed into place) -/
 def Sys.ckptSnapshot (sy : Sys) : Sys := { sy with snap := some sy.mem }
-/-- step 2: marker appended -/
+/-- step 3: marker appended -/
 def Sys.ckptMarker (crc : Bytes → Nat) (enc : Entry → Bytes) (sy : Sys) (id : Nat) : Sys :=
   Sys.log crc enc sy [.checkpoint id]
-/-- step 3: log truncated -/
+/-- step 4: log truncated -/
 def Sys.ckptTruncate (sy : Sys) : Sys := { sy with wal := sy.wal.truncate }
+
+/-- the states after each of the four atomic steps of `SlabRouter::checkpoint` -/
+def Sys.ckptSteps (crc : Bytes → Nat) (enc : Entry → Bytes) (sy : Sys) (id : Nat) : List Sys :=
+  let s1 := sy.ckptSync
+  let s2 := s1.ckptSnapshot
+  let s3 := s2.ckptMarker crc enc id
+  [s1, s2, s3, s3.ckptTruncate]
+
+/-- `checkpoint` -/
+def Sys.checkpoint (crc : Bytes → Nat) (enc : Entry → Bytes) (sy : Sys) (id : Nat) : Sys :=
+  (((sy.ckptSync).ckptSnapshot).ckptMarker crc enc id).ckptTruncate
+
+/-- the three steps of `checkpoint` BEFORE repo 197dc525 (no fsync first).  Only used by
+    `…_witness` theorems. -/
+def Sys.ckptStepsOld (crc : Bytes → Nat) (enc : Entry → Bytes) (sy : Sys) (id : Nat) : List Sys :=
+  let s2 := sy.ckptSnapshot
+  let s3 := s2.ckptMarker crc enc id
+  [s2, s3, s3.ckptTruncate]
 
 /-- disk contents a crash can leave: any cut of the log at or after the synced length -/
 def Sys.crashFile (sy : Sys) (n : Nat) : Bytes := sy.wal.file.take (max n sy.wal.syncedLen)
